@@ -153,7 +153,7 @@ FOREIGN = ["NetBSD9.3/x86_32/wtmpx", "NetBSD9.3/x86_32/utmpx", "NetBSD9.3/x86_64
            "CentOS9/x86_64/pacct", "Debian11/armv6l_ARMv6/pacct", "OpenSUSE15/wtmp", "FreeBSD14.0/x86_64/utx.log"]
 
 
-def foreign_layouts(sc, rep, rng, tier):
+def foreign_layouts(sc, rep, rng, tier, windowed=False):
     import math
     done = []
     for si, rel in enumerate(FOREIGN):
@@ -217,7 +217,33 @@ def foreign_layouts(sc, rep, rng, tier):
             rep.violation("foreign:selection", "%s: %d records re-timed, %d lines printed with instants %s" % (rel, k, nlines, got), rec)
         elif got != want:
             rep.violation("foreign:order", "%s (record size %d): records printed with instants %s, time order is %s" % (rel, recsz, got, want), rec)
-        done.append({"sample": rel, "record_size": recsz, "seconds_at": o_s, "microseconds_at": o_u, "records": k})
+        nwin = 0
+        if windowed and not rr.crashed and got == want:
+            # windows on, between and around the re-timed records: bounds on a record's exact instant, on the whole second
+            # that holds records with microseconds, one microsecond either side
+            inst = sorted(set(want))
+            pts = []
+            for (s_, n_) in inst:
+                pts += [(s_, n_), (s_, 0), (s_, max(0, n_ - 1000)), (s_, n_ + 1000)]
+            pts = list(dict.fromkeys(pts))
+            wins = [(p_, None) for p_ in pts] + [(None, p_) for p_ in pts] + [(p_, p_) for p_ in inst]
+            wins += [tuple(sorted(rng.sample(pts, 2))) for _ in range(4)]
+            if tier == "quick":
+                wins = rng.sample(wins, min(len(wins), 10))
+            for (a, b) in wins:
+                argv = ["--color", "never", "--blocksz", str(B)]
+                if a is not None:
+                    argv += ["-a", gen.fmt_ts(a[0], a[1], 0, 6)]
+                if b is not None:
+                    argv += ["-b", gen.fmt_ts(b[0], b[1], 0, 6)]
+                rw = common.run_s4(argv + [name], cwd=d, trace=True, timeout=60)
+                gotw = [(e["ds"], e["dn"]) for e in rw.trace if e["ev"] == "Print"]
+                wantw = [x for x in want if (a is None or x >= a) and (b is None or x <= b)]
+                nwin += 1
+                if rw.crashed or gotw != wantw:
+                    rep.violation("foreign:window", "%s re-timed, window [%s, %s]: printed %s, the window holds %s (rc=%s)" % (rel, a, b, gotw, wantw, rw.rc),
+                                  dict(rec, after=a, before=b))
+        done.append({"sample": rel, "record_size": recsz, "seconds_at": o_s, "microseconds_at": o_u, "records": k, "windows": nwin})
     return done
 
 
